@@ -1,7 +1,7 @@
 (* C07 — the operation-level model evaluated at EVERY crash point of families of small configurations (vm_compute).
    The model and its general theorems are in ResumeProgram.v. *)
 From Coq Require Import NArith List Bool Lia.
-From IQ Require Import Resume ResumeProgram.
+From IQ Require Import Resume ResumeInvariant ResumeProgram ResumeFull.
 Import ListNotations. Open Scope N_scope.
 
 (* ================================================================== configurations of the harness, generated *)
@@ -131,4 +131,28 @@ Definition units_state_matches (cf:cfg) : bool :=
                     | _, _ => false
                     end) (flat_map (files fname content) (pipeline_units cf)).
 Lemma family_units_state_matches : forallb units_state_matches (family false false false ++ family true true true) = true.
+Proof. vm_cast_no_check (eq_refl true). Qed.
+
+(* ------------------------------------------------------------------ the abstract program of ResumeFull.v is the operation-level program *)
+(* lock creations and removals, in order: at the abstract level (erasing a file that is already gone is no event) ... *)
+Fixpoint abs_events (l:list (pstep fname)) (gone:list fname) : list (N * fname) :=
+  match l with
+  | [] => []
+  | SUnit _ u :: t => (0, p_lock fname u) :: abs_events t gone
+  | SErase _ f :: t | SRemove _ f :: t => if existsb (fname_eqb f) gone then abs_events t gone else (2, f) :: abs_events t (f :: gone)
+  | SFinal _ _ _ :: t => abs_events t gone
+  end.
+(* ... and in the mutation trace of the operation-level program *)
+Definition op_events (cf:cfg) : list (N * fname) :=
+  flat_map (fun t : N * fname * list fname => let k := fst (fst t) in let f := snd (fst t) in
+            if (k =? 2) || ((k =? 0) && is_lock f) then [(k, f)] else []) (ticks cf).
+Definition data_of_cleanup (cf:cfg) : list fname := filter (fun f => negb (is_lock f)) (cleanup cf).
+Definition ev_eqb (a b:N * fname) : bool := (fst a =? fst b) && fname_eqb (snd a) (snd b).
+Fixpoint evs_eqb (a b:list (N * fname)) : bool := match a, b with [], [] => true | x::s, y::t => ev_eqb x y && evs_eqb s t | _, _ => false end.
+(* for configurations with the clean-up: same lock creations, same removals, same order; and the side conditions of
+   resume_any_crash_point hold *)
+Definition abstract_matches (cf:cfg) : bool :=
+  keep_tmp cf || (evs_eqb (abs_events (steps fname (repaired_prog cf (data_of_cleanup cf))) []) (op_events cf) && layout_ok cf && rg_ok cf &&
+                  forallb (fun f => existsb (fun u => existsb (fname_eqb f) (p_outs fname u)) (p_units cf)) (data_of_cleanup cf)).
+Lemma family_abstract_matches : forallb abstract_matches (family true true true) = true.
 Proof. vm_cast_no_check (eq_refl true). Qed.
